@@ -48,6 +48,7 @@ def step (s : St) (line : String) : St × String :=
   | "amp" :: r => (s, Drv.amp r)
   | "life" :: r => (s, Drv.life r)
   | "timers" :: r => (s, Drv.timers r)
+  | "pathm" :: r => (s, Drv.pathm r)
   | "dedup" :: r => let (d, o) := Drv.dedup s.dedup r; ({ s with dedup := d }, o)
   | "sbuf" :: r => let (d, o) := Drv.sbuf s.sbuf r; ({ s with sbuf := d }, o)
   | "asm" :: r => let (d, o) := Drv.asm s.asm r; ({ s with asm := d }, o)
